@@ -169,7 +169,16 @@ function failures(ev, ref, names, thorough, reducedEnvs, onlyKind) {
     n++
     if (!sameOutcome(exp, got)) {
       // the recorded deviation: spreading a value that is not an array (generated as [].concat)
-      const kind = flags.nonArraySpread ? 'lenient-array-spread' : kindOf(exp, got)
+      let kind = flags.nonArraySpread ? 'lenient-array-spread' : kindOf(exp, got)
+      if (!flags.nonArraySpread && got.err && !exp.err && flags.SITE) {
+        // the recorded deviation: a hoisted position (condition of ?:, dynamic index) that JavaScript does not reach
+        // (short-circuit, untaken branch) is evaluated by the generated code anyway, and evaluating it throws
+        for (let sidx = 0; sidx < flags.SITE.length; sidx++) {
+          if (flags.evaluated[sidx]) continue
+          const alone = outcomeOf(() => flags.SITE[sidx]())
+          if (alone.err && alone.err === got.err) { kind = 'hoisted-position-evaluated-eagerly'; break }
+        }
+      }
       if (onlyKind && kind !== onlyKind) continue
       if (!byKind.has(kind)) byKind.set(kind, { env, exp, got, kind })
       if (onlyKind) break
@@ -287,8 +296,22 @@ function literalShapes() {
   return out
 }
 
+/** evaluation order: every guard (short-circuit operators, both branches of ?:, nested twice) around every hoisted position
+ *  (condition of ?:, dynamic index) holding a test that can throw or call */
+function evaluationOrderShapes() {
+  const a = M.id('a'); const b = M.id('b'); const c = M.id('c')
+  const tests = [M.bin('instanceof', a, b), M.bin('instanceof', b, c), M.call(b, [a]), M.mem(M.mem(b, 'x'), 'y'), M.un('!', b)]
+  const sites = (t) => [M.cond(t, b, c), M.idx(a, t), M.idx(b, t), M.mem(M.cond(t, b, c), 'x')]
+  const guards = [(x) => M.bin('&&', a, x), (x) => M.bin('||', a, x), (x) => M.bin('??', a, x), (x) => M.cond(a, x, c), (x) => M.cond(a, c, x), (x) => M.bin('&&', x, a), (x) => M.arr([a, x]), (x) => M.bin('+', a, x)]
+  const out = []
+  for (const t of tests) for (const sx of sites(t)) {
+    for (const g of guards) { out.push(g(sx)); for (const g2 of guards.slice(0, 5)) out.push(g2(g(sx))) }
+  }
+  return out
+}
+
 function allShapes(thorough) {
-  return [...M.shapes(thorough ? 3 : 2), ...literalShapes()]
+  return [...M.shapes(thorough ? 3 : 2), ...literalShapes(), ...evaluationOrderShapes()]
 }
 
 function runShard(info, thorough) {
@@ -331,6 +354,10 @@ function runShard(info, thorough) {
         if (si % 997 === 0 && v === 0) rep.sample({ expression: text, reference: M.printRef(e), environments: fr.n })
         for (const f of fr.byKind.values()) {
           if (v === 0) minimalFailed = true
+          if (f.kind === 'hoisted-position-evaluated-eagerly') {
+            rep.violation('C03|hoisted-position-evaluated-eagerly', `a condition of ?: or a dynamic index that JavaScript does not reach is evaluated anyway: {{ ${text} }} with ${envText(f.env, names)} gives ${showOutcome(f.got)}, JavaScript gives ${showOutcome(f.exp)}`, { engine: 'c03', expr: text, tree: e, env: f.env, original: text })
+            continue
+          }
           if (f.kind === 'lenient-array-spread') {
             rep.violation('C03|lenient-array-spread', `array spread of a value that is not an array: {{ ${text} }} with ${envText(f.env, names)} gives ${showOutcome(f.got)}, JavaScript gives ${showOutcome(f.exp)}`, { engine: 'c03', expr: text, tree: e, env: f.env, original: text })
             continue
